@@ -359,6 +359,7 @@ type Solver struct {
 	crossN    int
 	quickMs   int
 	retired   map[string]*solverStats
+	preferInt bool
 }
 
 var globalSolverStats = map[string]*solverStats{}
@@ -413,6 +414,7 @@ func (s *Solver) Close() {
 
 func (s *Solver) Reset() {
 	s.log = s.log[:0]
+	s.preferInt = false
 	for _, b := range s.backends {
 		if !b.dead {
 			b.reset()
@@ -462,6 +464,11 @@ func (s *Solver) Check(extra *Term, wantModel []*Term) (checkResult, map[string]
 			stages = append(stages, stage{kind, s.timeoutMs})
 		}
 	}
+	if s.preferInt && len(stages) > 1 && stages[0].kind == "z3q" && stages[1].kind == "cvc5-int" {
+		// the quick z3 attempt already timed out on this path: arithmetic-heavy
+		// path condition, ask the integer back end first
+		stages[0], stages[1] = stages[1], stages[0]
+	}
 	for _, st := range stages {
 		kind := st.kind
 		b := s.get(kind)
@@ -485,6 +492,9 @@ func (s *Solver) Check(extra *Term, wantModel []*Term) (checkResult, map[string]
 			return res, model, ""
 		}
 		notes = append(notes, kind+": "+note)
+		if kind == "z3q" {
+			s.preferInt = true
+		}
 	}
 	return resUnknown, nil, strings.Join(notes, "; ")
 }
